@@ -35,6 +35,8 @@ WAbsLeq(a, bnd) == IF a.h < 32768 THEN ~WLess(bnd, a) ELSE ~WLess(bnd, WNeg(a))
 WOfInt(v) == [h |-> (v \div H16) % H16, l |-> v % H16]
 \* top bits: the integer a >> s for s >= 2 (result < 2^30)
 WShr(a, s) == IF s >= 16 THEN a.h \div 2^(s - 16) ELSE a.h * 2^(16 - s) + a.l \div 2^s
-RECURSIVE WSum(_)
-WSum(seq) == IF Len(seq) = 0 THEN WZero ELSE WAdd(Head(seq), WSum(Tail(seq)))
+RECURSIVE WSumR(_, _, _)
+WSumR(seq, lo, hi) == IF lo > hi THEN WZero ELSE IF lo = hi THEN seq[lo]
+                      ELSE LET mid == (lo + hi) \div 2 IN WAdd(WSumR(seq, lo, mid), WSumR(seq, mid + 1, hi))
+WSum(seq) == WSumR(seq, 1, Len(seq))        \* balanced recursion: depth log2(Len)
 =============================================================================
